@@ -87,8 +87,10 @@ def _answer(cc, code):
 
     c = _try(cands)
     ch = _try(lambda: C(str(BIC.from_bank_code(cc, code))))
-    inv = [{"dom": [C(x) for x in b.domestic_bank_codes], "exists": bool(b.exists)} for b in objs] \
-        if c["k"] == "ok" else []
+    # per candidate: does it list the queried bank code among its domestic bank codes (the full
+    # lists - thousands of codes for some BICs - are compared by the bic.reverse events)
+    inv = [{"lists_code": code in b.domestic_bank_codes, "ndom": len(b.domestic_bank_codes),
+            "exists": bool(b.exists)} for b in objs] if c["k"] == "ok" else []
     return {"cc": C(cc), "code": C(code), "cands": c, "choice": ch, "inv": inv}
 
 
